@@ -43,7 +43,11 @@ def gen(rng, tier):
            'lat': rng.randrange(2),
            # thread world: free schedule between the application thread and
            # the client's reader / handler threads
-           'policy': rng.choice(['fifo', 'fifo', 'random', 'pct'])}
+           'policy': rng.choice(['fifo', 'fifo', 'random', 'pct']),
+           # the application's connect handler uses the namespace at once:
+           # it emits with a callback (which the server never acknowledges
+           # on this connection)
+           'connect_emits': rng.random() < 0.3}
     ops = []
     n = rng.randrange(2, 5)
     for _ in range(n):
@@ -390,6 +394,25 @@ def _run(case, cfg, w):
 
     c = w.add_client('c', reconnection=False)
 
+    def emit_from_connect(ns):
+        # (the namespace may have been ended again by the time the handler
+        # gets to its emit - a refusal of '/' resets the client: then the
+        # emit raises BadNamespaceError, which is what it should do)
+        def cb(*a):
+            cb_log.append(('from-connect', a))
+        if w.mode == 'async':
+            async def go():
+                try:
+                    await c.emit('ev', 'from-connect', namespace=ns,
+                                 callback=cb)
+                except socketio.exceptions.BadNamespaceError:
+                    rec.count('app.emit_from_connect_refused')
+            return go()
+        try:
+            c.emit('ev', 'from-connect', namespace=ns, callback=cb)
+        except socketio.exceptions.BadNamespaceError:
+            rec.count('app.emit_from_connect_refused')
+
     def plan(label, args, ev):
         if label[3] == 'disconnect':
             # the application's disconnect handler may take a while (and, as
@@ -397,6 +420,9 @@ def _run(case, cfg, w):
             # processed meanwhile
             return [('pause', w.choices.pick('app', (0.0, 0.0, 0.002, 0.01),
                                              'dpause')), ('ret', None)]
+        if label[3] == 'connect' and cfg.get('connect_emits'):
+            ns = label[2] if label[2] != '*' else args[0]
+            return [('do', lambda: emit_from_connect(ns)), ('ret', None)]
         return [('ret', None)]
     coroutine = cfg['coroutine'] and w.mode == 'async'
     events = ['connect', 'disconnect', 'connect_error', 'ev']
@@ -464,6 +490,7 @@ def _run(case, cfg, w):
     out_cbs = []           # callbacks outstanding on the current connection
     cb_log = []
     old_ids = []           # (ns, id) issued on earlier connections
+    conn_ids = []          # (ns, id) issued by connect handlers, this one
     connected_at_end = {}
 
     def end_connection(where, cause, reason):
@@ -489,7 +516,10 @@ def _run(case, cfg, w):
                   % (where, cause, c.connected, c.namespaces, c.eio.state),
                   cause)
         if c.callbacks and any(len(d) > 1 for d in c.callbacks.values()):
-            v.add('callbacks_survive', '%s: %s' % (where, c.callbacks))
+            # (after a late CONNECT reply - the known finding - the connect
+            # handler ran on the dead client; what it registered stays)
+            v.add('callbacks_survive', '%s: %s' % (where, c.callbacks),
+                  cause if cause == 'late_reply_transport_loss' else '')
         if c._binary_packet is not None:
             v.add('partial_packet_survives', where)
         fully_accepted = False
@@ -514,6 +544,8 @@ def _run(case, cfg, w):
             if live:
                 continue
             _, nss, authk, wait, scr = op
+            old_ids.extend(conn_ids)
+            del conn_ids[:]
             script.clear()
             script.update(scr)
             accepted.clear()
@@ -536,6 +568,13 @@ def _run(case, cfg, w):
             w.settle()
             w.advance(1.6)
             w.settle()
+            for r in ss.rx[rx0:]:
+                pk = r['pkt']
+                if pk.base == sio.EVENT and pk.id is not None and \
+                        pk.data == ['ev', 'from-connect']:
+                    # never acknowledged on this connection: stale from
+                    # the next one on
+                    conn_ids.append((pk.nsp, pk.id))
             # one CONNECT per requested namespace, carrying the auth
             con = [r['pkt'] for r in ss.rx[rx0:] if r['pkt'].type ==
                    sio.CONNECT]
@@ -608,6 +647,8 @@ def _run(case, cfg, w):
             out_cbs.clear()
             # stale ACKs of the previous connection fire nothing
             for ns, id_ in old_ids:
+                if (ns, id_) in conn_ids:
+                    continue      # the id is in use again on this connection
                 if ns in accepted:
                     n_cb = len(cb_log)
                     ss.send_pkt(sio.ACK, ns, id_, ['stale'])
